@@ -34,7 +34,7 @@ type BlockNet struct {
 	onPut func(p int, c cid.Cid)
 	// failGet, when set, may return an error for a Get.
 	failGet func(p int, c cid.Cid) error
-	files map[string][]byte
+	files   map[string][]byte
 	// NotFoundFast makes a Get of a block no peer holds fail at once instead of waiting.
 	NotFoundFast bool
 }
@@ -194,9 +194,9 @@ func (d *fakeDag) AddMany(ctx context.Context, ns []ipld.Node) error {
 	}
 	return nil
 }
-func (d *fakeDag) Remove(ctx context.Context, c cid.Cid) error        { return nil }
+func (d *fakeDag) Remove(ctx context.Context, c cid.Cid) error       { return nil }
 func (d *fakeDag) RemoveMany(ctx context.Context, c []cid.Cid) error { return nil }
-func (d *fakeDag) Pinning() ipld.NodeAdder                            { return d }
+func (d *fakeDag) Pinning() ipld.NodeAdder                           { return d }
 
 type fakeKey struct{ id peer.ID }
 
